@@ -21,12 +21,20 @@ macro_rules! gen_int {
     ($($t:ty),*) => {$(
         impl Gen for $t {
             fn gen(rng: &mut Rng, _d: usize) -> Self {
-                match rng.below(6) {
+                match rng.below(8) {
                     0 => <$t>::MIN,
                     1 => <$t>::MAX,
                     2 => 0,
                     3 => 1,
                     4 => (<$t>::MAX / 2).wrapping_add(1),
+                    5 | 6 => {
+                        // the limits of every narrower width, both signs, +-1: where a representation may change
+                        let k = *rng.pick(&[7u32, 8, 15, 16, 31, 32, 53, 63, 64, 65, 126]);
+                        let d = rng.below(3) as i128 - 1;
+                        let mag = (1i128 << k) + d;
+                        let cand = if rng.bool() { mag } else { -mag };
+                        <$t>::try_from(cand).unwrap_or(<$t>::MAX / 3)
+                    }
                     _ => {
                         let hi = rng.next() as u128;
                         let lo = rng.next() as u128;
